@@ -44,6 +44,30 @@ class PathResult:
         return f"<{self.kind} {self.value!r} inputs={self.inputs}>"
 
 
+def default_value(name, lo, hi):
+    """deterministic pseudo-random completion for inputs the solver left unassigned (don't-care): used identically by the native mode"""
+    import hashlib
+
+    h = int.from_bytes(hashlib.sha256(name.encode()).digest(), "big")
+    return lo + h % (hi - lo + 1)
+
+
+class Assignment:
+    """total assignment of the path's inputs; .eval() evaluates a term under it (API compatible with z3 models)"""
+
+    def __init__(self, vars_, values):
+        self.subs = []
+        for name, var in vars_.items():
+            v = values[name]
+            if z3.is_bool(var):
+                self.subs.append((var, z3.BoolVal(bool(v))))
+            else:
+                self.subs.append((var, z3.BitVecVal(v, var.size())))
+
+    def eval(self, t, model_completion=True):
+        return z3.simplify(z3.substitute(t, *self.subs))
+
+
 class Engine:
     current = None
     symbolic = True
@@ -64,6 +88,7 @@ class Engine:
         self.trace = []
         self.model = None
         self.inputs = {}
+        self.input_vars = {}
         self.steps = 0
         self.path_checks = []  # (label, verdict)
         self.reached = []
@@ -96,6 +121,14 @@ class Engine:
             raise RuntimeError(f"duplicate symbol {name}")
         if lo == hi:
             return lo
+        if lo == 0 and (hi + 1) & hi == 0:
+            # unsigned k-bit variable, zero-extended: no range constraint needed
+            k = hi.bit_length()
+            var = z3.BitVec(name, k)
+            v = SymInt(z3.ZeroExt(1, var), lo, hi)
+            self.inputs[name] = v
+            self.input_vars[name] = var
+            return v
         w = fit(lo, hi)
         t = z3.BitVec(name, w)
         v = SymInt(t, lo, hi)
@@ -104,6 +137,7 @@ class Engine:
         if hi != (1 << (w - 1)) - 1:
             self.add(t <= hi)
         self.inputs[name] = v
+        self.input_vars[name] = t
         return v
 
     def fresh_bool(self, name):
@@ -112,6 +146,7 @@ class Engine:
         t = z3.Bool(name)
         v = SymBool(t)
         self.inputs[name] = v
+        self.input_vars[name] = t
         return v
 
     def fresh_bytes(self, name, n):
@@ -230,12 +265,18 @@ class Engine:
         return True
 
     def model_inputs(self, m):
+        """total input assignment: the model's value where the solver assigned one, a deterministic default otherwise"""
         out = {}
         for k, v in self.inputs.items():
+            var = self.input_vars[k]
+            r = m.eval(var, model_completion=False)
             if isinstance(v, SymInt):
-                out[k] = m.eval(v.t, model_completion=True).as_signed_long()
+                if z3.is_bv_value(r):
+                    out[k] = m.eval(v.t, model_completion=True).as_signed_long()
+                else:
+                    out[k] = default_value(k, v.lo, v.hi)
             else:
-                out[k] = z3.is_true(m.eval(v.t, model_completion=True))
+                out[k] = z3.is_true(r) if (z3.is_true(r) or z3.is_false(r)) else bool(default_value(k, 0, 1))
         return out
 
     def _violation(self, label, m):
@@ -287,7 +328,7 @@ class Engine:
                     if not self.path_checks:
                         continue
                 pr = PathResult(kind, v, inputs, list(self.trace), self.steps, list(self.path_checks), list(self.reached),
-                                self.model)
+                                Assignment(self.input_vars, inputs))
                 on_path(pr)
         finally:
             Engine.current = prev
